@@ -75,7 +75,30 @@ TIncr ==
         ELSE TRUE
   /\ l' = l + 1
 
-Next == TSnap \/ TIncr
+(***************************************************************************)
+(* handles (C10): several handles on the same files.  A handle opened      *)
+(* while another one is open must be refused (or wait); and whatever       *)
+(* happened, the next open succeeds and finds every acknowledged node.     *)
+(***************************************************************************)
+THandles ==
+  /\ l <= Len(Rec) /\ Rec[l].ev = "handles"
+  /\ LET e == Rec[l]
+         second == {i \in 1..Len(e.steps) : e.steps[i].kind \in {"open", "child-open"} /\ e.steps[i].others_open > 0
+                                            /\ (e.steps[i].res = "ok")}
+         exts == IF e.final.open = "ok" THEN {x[1] : x \in SeqSet(e.final.d.e2i)} ELSE {}
+         lost == {i \in 1..Len(e.acked) : e.acked[i][2] \notin exts}
+     IN /\ (IF second = {} THEN TRUE
+            ELSE Emit([prop |-> "C10", at |-> l, id |-> e.id, kind |-> "second-handle-opened",
+                       step |-> CHOOSE i \in second : TRUE, how |-> e.steps[CHOOSE i \in second : TRUE].kind]))
+        /\ (IF e.final.open = "ok" THEN TRUE
+            ELSE Emit([prop |-> "C10", at |-> l, id |-> e.id, kind |-> "open-fails-after-two-writers",
+                       two_writers |-> second # {}, err |-> e.final.open]))
+        /\ (IF e.final.open # "ok" \/ lost = {} THEN TRUE
+            ELSE Emit([prop |-> "C10", at |-> l, id |-> e.id, kind |-> "acknowledged-commit-lost",
+                       two_writers |-> second # {}, lost |-> [i \in 1..Len(e.acked) |-> e.acked[i]]]))
+  /\ l' = l + 1
+
+Next == TSnap \/ TIncr \/ THandles
 Spec == Init /\ [][Next]_l
 TraceAccepted ==
   LET d == TLCGet("stats").diameter IN
